@@ -173,6 +173,16 @@ func (j *job[T]) IsClosed() bool {
 
 // changeStatus updates the job's status to the provided value.
 func (j *job[T]) changeStatus(s status) {
+	if s == processing {
+		// a job that was closed in the meantime stays closed
+		for {
+			cur := j.status.Load()
+			if cur == closed || j.status.CompareAndSwap(cur, processing) {
+				return
+			}
+		}
+	}
+
 	j.status.Store(s)
 }
 
@@ -241,10 +251,32 @@ func (j *job[T]) Close() error {
 		return err
 	}
 
-	j.status.Store(closed)
+	if err := j.markClosed(); err != nil {
+		return err
+	}
+
 	j.wg.Done()
 
 	return nil
+}
+
+// markClosed moves the job to the closed status exactly once: of several
+// concurrent closers (client, purge, worker) only one gets a nil error.
+func (j *job[T]) markClosed() error {
+	for {
+		s := j.status.Load()
+
+		switch s {
+		case processing:
+			return ErrJobProcessing
+		case closed:
+			return ErrJobAlreadyClosed
+		}
+
+		if j.status.CompareAndSwap(s, closed) {
+			return nil
+		}
+	}
 }
 
 func (j *job[T]) ack() error {
